@@ -1713,6 +1713,51 @@ impl OverlayFs {
         Ok(Arc::clone(&node))
     }
 
+    // Copy a special file (device node, fifo, socket) from lower layer to upper layer by
+    // creating a node with the same type, permission bits and device number.
+    fn copy_special_up(
+        &self,
+        ctx: &Context,
+        node: Arc<OverlayInode>,
+        st: stat64,
+    ) -> Result<Arc<OverlayInode>> {
+        if node.in_upper_layer() {
+            return Ok(node);
+        }
+
+        let parent_node = if let Some(ref n) = node.parent.lock().unwrap().upgrade() {
+            Arc::clone(n)
+        } else {
+            return Err(Error::other("no parent?"));
+        };
+
+        if !parent_node.in_upper_layer() {
+            parent_node.create_upper_dir(ctx, None)?;
+        }
+
+        let mut new_upper_real = None;
+        parent_node.handle_upper_inode_locked(&mut |parent_upper_inode| -> Result<bool> {
+            // We already create upper dir for parent_node above.
+            let parent_real_inode =
+                parent_upper_inode.ok_or_else(|| Error::from_raw_os_error(libc::EROFS))?;
+            new_upper_real.replace(parent_real_inode.mknod(
+                ctx,
+                node.name.as_str(),
+                st.st_mode,
+                st.st_rdev as u32,
+                0,
+            )?);
+            Ok(false)
+        })?;
+
+        if let Some(real_inode) = new_upper_real {
+            // update upper_inode and first_inode()
+            node.add_upper_inode(real_inode, true);
+        }
+
+        Ok(Arc::clone(&node))
+    }
+
     // Copy regular file from lower layer to upper layer.
     // Caller must ensure node doesn't have upper layer.
     fn copy_regfile_up(&self, ctx: &Context, node: Arc<OverlayInode>) -> Result<Arc<OverlayInode>> {
@@ -1847,6 +1892,12 @@ impl OverlayFs {
         // For symlink.
         if st.st_mode & libc::S_IFMT == libc::S_IFLNK {
             return self.copy_symlink_up(ctx, Arc::clone(&node));
+        }
+
+        // For special files (device nodes, fifos, sockets): there is no content to copy and the
+        // layers refuse to open them, so recreate the node itself.
+        if st.st_mode & libc::S_IFMT != libc::S_IFREG {
+            return self.copy_special_up(ctx, Arc::clone(&node), st);
         }
 
         // For regular file.
